@@ -137,3 +137,29 @@ pub fn err(e: &minicbor::decode::Error, pos: usize) -> String { format!("err {} 
 pub fn guard<R>(f: impl FnOnce() -> R) -> Option<R> {
     std::panic::catch_unwind(std::panic::AssertUnwindSafe(f)).ok()
 }
+
+/// A hand-written nil-capable type that is not spelled `Option<..>`: `Encode::is_nil` / `Decode::nil` are
+/// overridden, so the derive macros must treat a field of this type as absent when it holds `None`
+/// (model field type: `opt(u16)`).
+#[derive(Debug, Clone, PartialEq)]
+pub struct NilOpt(pub Option<u16>);
+
+impl<C> minicbor::Encode<C> for NilOpt {
+    fn encode<W: minicbor::encode::Write>(&self, e: &mut minicbor::Encoder<W>, _: &mut C) -> Result<(), minicbor::encode::Error<W::Error>> {
+        match self.0 { Some(x) => { e.u16(x)?; } None => { e.null()?; } }
+        Ok(())
+    }
+    fn is_nil(&self) -> bool { self.0.is_none() }
+}
+
+impl<'b, C> minicbor::Decode<'b, C> for NilOpt {
+    fn decode(d: &mut minicbor::Decoder<'b>, _: &mut C) -> Result<Self, minicbor::decode::Error> {
+        if d.datatype()? == minicbor::data::Type::Null { d.skip()?; return Ok(NilOpt(None)) }
+        d.u16().map(|x| NilOpt(Some(x)))
+    }
+    fn nil() -> Option<Self> { Some(NilOpt(None)) }
+}
+
+impl<C> minicbor::CborLen<C> for NilOpt {
+    fn cbor_len(&self, ctx: &mut C) -> usize { match self.0 { Some(x) => x.cbor_len(ctx), None => 1 } }
+}
